@@ -25,6 +25,7 @@ import (
 	"math"
 	"regexp"
 	"sort"
+	"strings"
 
 	"github.com/lindb/roaring"
 
@@ -206,8 +207,13 @@ func (b *TrieBucket) Suggest(prefix string, limit int) (rs []string) {
 
 // FindValuesByRegexp returns values by regexp expression.
 func (b *TrieBucket) FindValuesByRegexp(rp *regexp.Regexp, ids []uint32) []uint32 {
-	literalPrefix, _ := rp.LiteralPrefix()
-	literalPrefixByte := strutil.String2ByteSlice(literalPrefix)
+	// NOTE: rp.Match finds the expression anywhere in the key(same as finding from memory store), so the literal prefix
+	// of the expression is the prefix of the key only when the expression is anchored at the beginning of the key.
+	var literalPrefixByte []byte
+	if strings.HasPrefix(rp.String(), "^") {
+		literalPrefix, _ := rp.LiteralPrefix()
+		literalPrefixByte = strutil.String2ByteSlice(literalPrefix)
+	}
 	for _, kv := range b.kvs {
 		itr := kv.tree.NewPrefixIterator(literalPrefixByte)
 		for itr.Valid() {
